@@ -54,6 +54,8 @@ func execNetworkSimplex(g *graph.DGraph, params graph.Params) {
 		vbalance(g)
 	case 2:
 		p.hbalance(g)
+		// balancing can move nodes above layer zero
+		normalize(g)
 	}
 }
 
